@@ -1,4 +1,6 @@
-from . import cycle
+from . import cycle, sidecar
 CHECKS = {}
 for p in cycle.PROPS:
     CHECKS[p] = cycle.check
+CHECKS['C10'] = sidecar.check
+CHECKS['C14'] = sidecar.check
